@@ -278,11 +278,11 @@ class World:
         return st, dst
 
     # ------------------------------------------------------------ symbolic pre-state
-    def symbolic(s, dirty_absent=True):
+    def symbolic(s, dirty_absent=True, fixed=None):
         """fork of the concrete empty graph in which every field is a solver variable.
         Returns (state, Sym).  Nothing is assumed yet: see Sym.inv()."""
         st = s.concrete0.fork()
-        y = Sym(s)
+        y = Sym(s, fixed)
         for c in y.wf():
             st.assume(c)
         for i in range(s.cap):
@@ -317,13 +317,18 @@ class World:
 class Sym:
     """the solver variables of a symbolic graph state, and Inv over them"""
 
-    def __init__(s, w):
+    def __init__(s, w, fixed=None):
+        """fixed: {variable name: value} -- those fields are constants instead of variables (used where the
+        structure of a state is case-split by the runner, e.g. the group structure for save/load)"""
         s.w = w
+        s.fixed = fixed = dict(fixed or {})
         cap, N = w.cap, w.N
         B = z3.BitVec
 
         def NB(name, bits, width=64):
             # a variable with a small domain, widened: the range constraint is structural
+            if name in fixed:
+                return z3.BitVecVal(fixed[name], width)
             return z3.ZeroExt(width - bits, z3.BitVec(name, bits))
         s.tag = [NB('tag%d' % i, 4) for i in range(cap)]            # I1: tag < 16
         s.pers = [NB('pers%d' % i, 2, 8) for i in range(cap)]
